@@ -18,3 +18,7 @@ NATIVE_COVERS = {q: ["SerializableLock"] for q in ("SerializableLock.__init__", 
 def native(tier, seed):
     from vf import diag_native
     return [diag_native.lock_sweep(tier, seed)]
+
+
+# thorough tier: deliberate edits that must turn an obligation red (applied to a scratch copy, never to /repo)
+MUTATIONS = [('contracts.locks', 'SerializableLock.__init__', 'dask/utils.py', '            SerializableLock._locks[self.token] = self.lock', '            pass')]
